@@ -23,6 +23,7 @@ type thread struct {
 	daemon  bool
 	vc      vclock
 	stack   []*ssa.Function
+	killed  bool
 }
 
 type selCase struct {
@@ -55,7 +56,7 @@ type mutexState struct{ locked bool }
 type wgState struct{ n int }
 
 func (e *Engine) runnable(t *thread) bool {
-	if t.done {
+	if t.done || t.killed {
 		return false
 	}
 	if t.blocked == nil {
